@@ -39,5 +39,33 @@ for (xc, yc) in ((11.0, 10.0), (11.5, 9.5), (10.3, 11.7), (2.0, 10.0), (-1.0, 10
         if (np.abs(wc - bc) > ambc + 1e-12).any():
             print('FAIL center', xc, yc, r)
             fail += 1
+# 4. circles cut by ONE image edge (or by two edges whose caps do not meet): total exact area = pi r^2 - circular
+#    segment(s), segment(d) = r^2 atan2(h, d) - d h, h = sqrt(r^2 - d^2), for a chord at distance d from the centre; the centres
+#    and radii are the edge-geometry alphabet of C19 (circle ends within +-1 px of the true edge -0.5 / n - 0.5)
+from mcphot.props.c19 import EDGE_CENTRES, EDGE_RADII, SHAPE  # noqa: E402
+
+
+def _seg(d, r):
+    if d >= r:
+        return 0.0
+    h = math.sqrt((r - d) * (r + d))          # half chord; atan2 instead of acos(d / r): no cancellation near tangency
+    return r * r * math.atan2(h, d) - d * h
+
+
+assert SHAPE == shape and len(EDGE_CENTRES) == 12
+for name, (xc, yc) in EDGE_CENTRES.items():
+    dists = (xc + 0.5, shape[1] - 0.5 - xc, yc + 0.5, shape[0] - 0.5 - yc)
+    for r in EDGE_RADII[name]:
+        if r <= 0:
+            continue
+        near = sorted(dists)[:2]
+        if math.hypot(*near) <= r:
+            print('FAIL design: corner inside the circle', name, r)
+            fail += 1
+        want = math.pi * r * r - sum(_seg(d, r) for d in dists)
+        w, _ = weights(shape, xc, yc, r, 'exact')
+        if abs(w.sum() - want) > 1e-11 * max(1.0, r * r):
+            print('FAIL edge-cut area', name, r, w.sum(), want)
+            fail += 1
 print('c19_apweights selftest:', 'FAILED' if fail else 'ok')
 sys.exit(1 if fail else 0)
